@@ -79,7 +79,14 @@ SPECS["C13"] = {
                   "'every live channel holds the tracker its key maps to'). The model is tied to the code by replaying "
                   "hundreds of generated scripts (thousands + an exhaustive length-6 sweep in thorough) on the real "
                   "MaxChannelsPerKey and comparing every observation inside Coq; the monitor proved correct for the model "
-                  "is also evaluated on the implementation's traces.",
+                  "is also evaluated on the implementation's traces. THREAD RACES (part race, third session): the model PerKeyRace.v "
+                  "splits poll_next into its atomic actions (listen / upgrade / receive / check) and lets other threads "
+                  "release channels, deliver their delayed drop notifications, let channels arrive or end the listener "
+                  "between any two of them; C13_race_alive_le_n, C13_race_monitor (the decision view of EVERY interleaving is "
+                  "accepted by the C13 monitor), C13_race_shed_only_if_was_full, C13_race_accept_*, C13_race_pc_flow. It is "
+                  "tied to the code through the yield points of hook H5, which sit exactly at those boundaries: the real "
+                  "limiter's run is logged as a flat list of race ops and compared with the model op by op (observations "
+                  "and program counter).",
     "level_note": "Trusted: Coq kernel, vm_compute, the Rust harness and Python driver. Modelled not verified: Arc/Weak "
                   "reference counts and tokio's unbounded mpsc as sequential data. OS-thread races between strong_count(), "
                   "upgrade(), the release of a channel and its delayed drop notification are covered by the race model "
